@@ -13,5 +13,5 @@ for prop, groups in mod.GROUPS.items():
         seen.add(g.name)
         r = runner.run_group(g)
         print("%-40s %-11s obl=%d ok=%d canaries=%s/%s %.1fs %s" % (g.name, r["cls"], r["obligations"], r["discharged"], r.get("canaries_ok"), r.get("canaries"), r["wall_s"], r["reason"]))
-        for f in r["failed"]:
+        for f in r["failed"][:14]:
             print("     FAILED %s line %s: %s" % (f["property"], f["line"], f["description"]))
